@@ -6,17 +6,23 @@
 #include <fcppt/container/tree/child_position.hpp>
 #include <fcppt/container/tree/comparison.hpp>
 #include <fcppt/container/tree/depth.hpp>
+#include <fcppt/container/tree/is_object.hpp>
 #include <fcppt/container/tree/level.hpp>
+#include <fcppt/container/tree/make_pre_order.hpp>
+#include <fcppt/container/tree/make_to_root.hpp>
 #include <fcppt/container/tree/map.hpp>
 #include <fcppt/container/tree/object.hpp>
+#include <fcppt/container/tree/output.hpp>
 #include <fcppt/container/tree/pre_order.hpp>
 #include <fcppt/container/tree/to_root.hpp>
 #include <fcppt/optional/object_impl.hpp>
 #include <fcppt/optional/reference.hpp>
 
 #include <cstddef>
+#include <functional>
 #include <iterator>
 #include <memory>
+#include <sstream>
 #include <string>
 #include <utility>
 #include <vector>
@@ -31,6 +37,10 @@ constexpr std::size_t max_roots = 4;
 constexpr std::size_t grow_cap = 40;
 constexpr std::size_t copy_cap = 64;
 constexpr std::size_t walk_cap = 100000;
+constexpr std::size_t pair_cap = 14;
+
+static_assert(fcppt::container::tree::is_object<tree>::value);
+static_assert(!fcppt::container::tree::is_object<int>::value);
 
 std::vector<std::unique_ptr<tree>> forest;
 
@@ -253,6 +263,267 @@ void keep_or_drop(tree &&r, bool keep)
     forest.push_back(std::make_unique<tree>(std::move(r)));
 }
 
+
+// ---- observers (each returns the text after "q a=<path> ") ---------------------------------------------------
+
+// pre_order: const and non-const instantiation, class and make_ function, pre- and post-increment, a copy of the iterator taken
+// half way must continue independently; every visited object must be the object at the corresponding pre-order path
+std::string obs_pre(tree &a, path const &pa)
+{
+  namespace ft = fcppt::container::tree;
+  std::vector<int> v1;
+  std::vector<tree const *> addr;
+  tree const &ca = a;
+  ft::pre_order<tree const> const trav{ca};
+  for (auto it = trav.begin(); it != trav.end() && v1.size() < walk_cap; ++it)
+  {
+    v1.push_back(it->value());
+    addr.push_back(&*it);
+  }
+  std::string flags;
+  std::vector<int> v2;
+  for (tree &n : ft::make_pre_order(a))
+  {
+    if (v2.size() >= walk_cap)
+      break;
+    v2.push_back(n.value());
+    if (v2.size() <= addr.size() && addr[v2.size() - 1] != &n)
+      flags = " NONCONST-ADDR-DIFFERS";
+  }
+  if (v1 != v2)
+    flags += " NONCONST-DIFFERS";
+  // the expected objects: pre-order paths below a
+  {
+    std::vector<path> ps;
+    path cur{pa};
+    paths_t(a, cur, ps);
+    if (ps.size() != addr.size())
+      flags += " COUNT-DIFFERS";
+    else
+      for (std::size_t k = 0; k < ps.size(); ++k)
+        if (node_at(ps[k]) != addr[k])
+        {
+          flags += " ADDR-DIFFERS";
+          break;
+        }
+  }
+  // forward iterator: copy half way, post-increment, default-constructed iterator is the end
+  {
+    auto const trav3 = ft::make_pre_order(ca);
+    auto it = trav3.begin();
+    for (std::size_t k = 0; k < v1.size() / 2 && it != trav3.end(); ++k)
+      it++;
+    auto copy = it;
+    std::vector<int> rest1;
+    std::vector<int> rest2;
+    for (; it != trav3.end() && rest1.size() < walk_cap; ++it)
+      rest1.push_back((*it).value());
+    typename ft::pre_order<tree const>::iterator const dflt{};
+    for (; !(copy == dflt) && rest2.size() < walk_cap; copy++)
+      rest2.push_back(copy->value());
+    std::vector<int> const expect(v1.begin() + static_cast<std::ptrdiff_t>(v1.size() / 2), v1.end());
+    if (rest1 != expect || rest2 != expect)
+      flags += " ITER-COPY-DIFFERS";
+  }
+  return "pre=" + int_list(v1) + flags;
+}
+
+std::string obs_toroot(tree &a, path const &pa)
+{
+  namespace ft = fcppt::container::tree;
+  std::vector<int> v1;
+  std::vector<tree const *> addr;
+  tree const &ca = a;
+  ft::to_root<tree const> const trav{ca};
+  for (auto it = trav.begin(); it != trav.end() && v1.size() < walk_cap; ++it)
+  {
+    v1.push_back(it->value());
+    addr.push_back(&*it);
+  }
+  std::string flags;
+  std::vector<int> v2;
+  for (tree &n : ft::make_to_root(a))
+  {
+    if (v2.size() >= walk_cap)
+      break;
+    v2.push_back(n.value());
+  }
+  if (v1 != v2)
+    flags += " NONCONST-DIFFERS";
+  std::vector<int> v3;
+  {
+    auto const trav3 = ft::make_to_root(ca);
+    typename ft::to_root<tree const>::iterator const dflt{};
+    for (auto it = trav3.begin(); !(it == dflt) && v3.size() < walk_cap; it++)
+      v3.push_back((*it).value());
+  }
+  if (v1 != v3)
+    flags += " MAKE-DIFFERS";
+  // the k-th visited object is the object at the path shortened by k
+  if (addr.size() != pa.size())
+    flags += " COUNT-DIFFERS";
+  else
+    for (std::size_t k = 0; k < addr.size(); ++k)
+    {
+      path const pre(pa.begin(), pa.end() - static_cast<std::ptrdiff_t>(k));
+      if (node_at(pre) != addr[k])
+      {
+        flags += " ADDR-DIFFERS";
+        break;
+      }
+    }
+  return "toroot=" + int_list(v1) + flags;
+}
+
+std::string opt_val(tree::const_optional_ref const &r)
+{
+  if (!r.has_value())
+    return "none";
+  tree const &c = r.get_unsafe().get();
+  return std::to_string(c.value()) + ":" + std::to_string(c.size());
+}
+
+std::string obs_front(tree &a, bool front)
+{
+  tree const &ca = a;
+  tree::optional_ref const r{front ? a.front() : a.back()};
+  tree::const_optional_ref const rc{front ? ca.front() : ca.back()};
+  std::string flags;
+  if (r.has_value() != rc.has_value() || r.has_value() == a.empty())
+    flags += " CONST-DIFFERS";
+  else if (r.has_value())
+  {
+    tree *const expect = front ? &*a.begin() : &*std::prev(a.end());
+    if (&r.get_unsafe().get() != expect || &rc.get_unsafe().get() != expect)
+      flags += " ADDR-DIFFERS";
+    auto const pos = fcppt::container::tree::child_position(a, r.get_unsafe().get());
+    if (!pos.has_value() || pos.get_unsafe() != (front ? a.begin() : std::prev(a.end())))
+      flags += " CPOS-DIFFERS";
+  }
+  return std::string{front ? "front=" : "back="} + opt_val(rc) + flags;
+}
+
+std::string obs_kids(tree &a)
+{
+  tree const &ca = a;
+  std::vector<int> fw;
+  std::vector<int> rv;
+  std::vector<tree const *> fa;
+  std::vector<tree const *> ra;
+  for (auto it = a.begin(); it != a.end() && fw.size() < walk_cap; ++it)
+  {
+    fw.push_back(it->value());
+    fa.push_back(&*it);
+  }
+  for (auto it = a.rbegin(); it != a.rend() && rv.size() < walk_cap; ++it)
+  {
+    rv.push_back(it->value());
+    ra.push_back(&*it);
+  }
+  std::vector<tree const *> cfa;
+  std::vector<tree const *> cra;
+  for (auto it = ca.begin(); it != ca.end() && cfa.size() < walk_cap; ++it)
+    cfa.push_back(&*it);
+  for (auto it = ca.rbegin(); it != ca.rend() && cra.size() < walk_cap; ++it)
+    cra.push_back(&*it);
+  std::vector<tree const *> cl;
+  for (tree const &c : ca.children())
+    cl.push_back(&c);
+  std::string flags;
+  if (fa != cfa || ra != cra || fa != cl)
+    flags += " CONST-DIFFERS";
+  if (std::vector<tree const *>(ra.rbegin(), ra.rend()) != fa)
+    flags += " REVERSE-ADDR-DIFFERS";
+  return "fwd=" + int_list(fw) + " rev=" + int_list(rv) + " size=" + std::to_string(ca.size()) +
+         " empty=" + (ca.empty() ? "1" : "0") + flags;
+}
+
+std::string obs_out(tree const &a)
+{
+  std::ostringstream os;
+  os << a;
+  std::wostringstream wos;
+  wos << a;
+  std::string const n = os.str();
+  std::wstring const w = wos.str();
+  std::string r;
+  for (char c : n)
+    r += c == '\t' ? '>' : c == '\n' ? ';' : c;
+  bool same = n.size() == w.size();
+  for (std::size_t k = 0; same && k < n.size(); ++k)
+    same = static_cast<wchar_t>(static_cast<unsigned char>(n[k])) == w[k];
+  return "out=" + r + (same ? "" : " WIDE-DIFFERS");
+}
+
+std::string cpos_str(tree &a, tree &b)
+{
+  auto const r = fcppt::container::tree::child_position(a, b);
+  tree const &ca = a;
+  tree const &cb = b;
+  auto const rc = fcppt::container::tree::child_position(ca, cb);
+  if (r.has_value() != rc.has_value() ||
+      (r.has_value() && std::distance(ca.begin(), rc.get_unsafe()) != std::distance(a.begin(), r.get_unsafe())))
+    return "CONST-DIFFERS";
+  return r.has_value() ? std::to_string(std::distance(a.begin(), r.get_unsafe())) : std::string{"none"};
+}
+
+std::string obs_all()
+{
+  std::vector<path> const ps = all_paths();
+  std::string out = "q obsall n=" + std::to_string(ps.size()) + " | ";
+  bool first = true;
+  for (path const &p : ps)
+  {
+    tree &t = *node_at(p);
+    if (!first)
+      out += " | ";
+    first = false;
+    out += path_str(p) + " v=" + std::to_string(t.value()) + " l=" + std::to_string(fcppt::container::tree::level(t)) +
+           " d=" + std::to_string(fcppt::container::tree::depth(t)) + " f=" + obs_front(t, true).substr(6) +
+           " b=" + obs_front(t, false).substr(5) + " " + obs_kids(t) + " " + obs_pre(t, p) + " tr=" +
+           obs_toroot(t, p).substr(7) + " " + obs_out(t);
+  }
+  out += " || ";
+  if (ps.size() > pair_cap)
+    return out + "pairs=skipped";
+  std::string cp;
+  std::string eqs;
+  for (path const &p : ps)
+  {
+    tree &P = *node_at(p);
+    if (!eqs.empty())
+      eqs += ',';
+    for (path const &c : ps)
+    {
+      tree &C = *node_at(c);
+      std::string const r = cpos_str(P, C);
+      if (r != "none")
+      {
+        if (!cp.empty())
+          cp += ',';
+        cp += path_str(p) + ">" + path_str(c) + "=" + r;
+      }
+      tree const &cP = P;
+      tree const &cC = C;
+      bool const e = cP == cC;
+      bool const n = cP != cC;
+      eqs += e == n ? '?' : e ? '1' : '0';
+    }
+  }
+  return out + "cpos=" + cp + " eq=" + eqs;
+}
+
+int key_of(int k, int v)
+{
+  switch (k)
+  {
+  case 2:
+    return ((v % 3) + 3) % 3;
+  default:
+    return v < 0 ? -v : v;
+  }
+}
+
 std::string handle_impl(std::vector<std::string> const &t)
 {
   bool const full = forest.size() >= max_roots;
@@ -263,6 +534,8 @@ std::string handle_impl(std::vector<std::string> const &t)
     forest.clear();
     return "ok";
   }
+  if (t.size() == 1 && t[0] == "obsall")
+    return obs_all();
   if (t.size() == 2 && t[0] == "new")
   {
     if (!is_int(t[1]))
@@ -272,7 +545,11 @@ std::string handle_impl(std::vector<std::string> const &t)
     if (big)
       return "skip:big";
     int const v = std::stoi(t[1]);
-    forest.push_back(std::make_unique<tree>(v));
+    // both constructors: object(T const &) for even values, object(T &&) for odd ones
+    if (v % 2 == 0)
+      forest.push_back(std::make_unique<tree>(v));
+    else
+      forest.push_back(std::make_unique<tree>(int{v}));
     return done("ok");
   }
   if (t.size() == 2 && t[0] == "del")
@@ -325,39 +602,17 @@ std::string handle_impl(std::vector<std::string> const &t)
       return done("ok b=" + sa);
     }
     if (cmd == "pre")
-    {
-      std::vector<int> v1;
-      std::vector<int> v2;
-      tree const &ca = a;
-      fcppt::container::tree::pre_order<tree const> const trav{ca};
-      for (auto it = trav.begin(); it != trav.end() && v1.size() < walk_cap; ++it)
-        v1.push_back(it->value());
-      fcppt::container::tree::pre_order<tree> const trav2{a};
-      for (tree &n : trav2)
-      {
-        if (v2.size() >= walk_cap)
-          break;
-        v2.push_back(n.value());
-      }
-      return "q a=" + sa + " pre=" + int_list(v1) + (v1 == v2 ? "" : " NONCONST-DIFFERS");
-    }
+      return "q a=" + sa + " " + obs_pre(a, pa);
     if (cmd == "toroot")
-    {
-      std::vector<int> v1;
-      tree const &ca = a;
-      fcppt::container::tree::to_root<tree const> const trav{ca};
-      for (auto it = trav.begin(); it != trav.end() && v1.size() < walk_cap; ++it)
-        v1.push_back(it->value());
-      std::vector<int> v2;
-      fcppt::container::tree::to_root<tree> const trav2{a};
-      for (tree &n : trav2)
-      {
-        if (v2.size() >= walk_cap)
-          break;
-        v2.push_back(n.value());
-      }
-      return "q a=" + sa + " toroot=" + int_list(v1) + (v1 == v2 ? "" : " NONCONST-DIFFERS");
-    }
+      return "q a=" + sa + " " + obs_toroot(a, pa);
+    if (cmd == "front")
+      return "q a=" + sa + " " + obs_front(a, true);
+    if (cmd == "back")
+      return "q a=" + sa + " " + obs_front(a, false);
+    if (cmd == "kids")
+      return "q a=" + sa + " " + obs_kids(a);
+    if (cmd == "out")
+      return "q a=" + sa + " " + obs_out(a);
     if (cmd == "depth")
       return "q a=" + sa + " depth=" + std::to_string(fcppt::container::tree::depth(a));
     if (cmd == "level")
@@ -369,6 +624,14 @@ std::string handle_impl(std::vector<std::string> const &t)
       bool all_ok = true;
       unsigned alt = 0;
       dump_t<ltree>(m, nullptr, out, all_ok, alt);
+      // mapping with the identity into the same tree type gives an equal tree with links of its own
+      tree idm{fcppt::container::tree::map<tree>(a, [](int const x) { return x; })};
+      std::string out2;
+      bool all_ok2 = true;
+      dump_t<tree>(idm, nullptr, out2, all_ok2, alt);
+      tree const &ca = a;
+      if (!(idm == ca) || !all_ok2)
+        out += " MAP-ID-DIFFERS";
       return "q a=" + sa + " map=" + out;
     }
     return "bad-op";
@@ -382,10 +645,18 @@ std::string handle_impl(std::vector<std::string> const &t)
       if (!is_int(x))
         return "bad-op";
       int const v = std::stoi(x);
-      if (v % 2 == 0)
+      switch (((v % 3) + 3) % 3)
+      {
+      case 0:
         a.value(v);
-      else
+        break;
+      case 1:
         a.value(int{v});
+        break;
+      default:
+        a.value() = v;
+        break;
+      }
       return done("ok a=" + sa);
     }
     if (cmd == "pushb" || cmd == "pushf")
@@ -465,6 +736,39 @@ std::string handle_impl(std::vector<std::string> const &t)
       return "q a=" + sa + " i=" + std::to_string(i) + " cpos=" +
              (r.has_value() ? std::to_string(std::distance(a.begin(), r.get_unsafe())) : std::string{"none"});
     }
+    if (cmd == "sortp")
+    {
+      if (!is_nat(x))
+        return "bad-op";
+      int const k = static_cast<int>(std::stoull(x) % 4);
+      switch (k)
+      {
+      case 0:
+        a.sort([](int const l, int const r) { return l < r; });
+        break;
+      case 1:
+        a.sort(std::greater<int>{});
+        break;
+      default:
+        a.sort([k](int const l, int const r) { return key_of(k, l) < key_of(k, r); });
+        break;
+      }
+      return done("ok a=" + sa + " k=" + std::to_string(k));
+    }
+    if (cmd == "mkl")
+    {
+      if (!is_int(x))
+        return "bad-op";
+      if (full)
+        return "skip:full";
+      if (cnt + size_of(a) > copy_cap)
+        return "skip:big";
+      tree::child_list l(a.children());
+      forest.push_back(std::make_unique<tree>(std::stoi(x), std::move(l)));
+      if (!l.empty())
+        return "MOVED-FROM-LIST-NOT-EMPTY";
+      return done("ok b=" + sa);
+    }
     // two node operands
     path pb;
     if (!sel(x, pb))
@@ -502,17 +806,25 @@ std::string handle_impl(std::vector<std::string> const &t)
         return "RETURNED-REFERENCE-WRONG";
       return done(head);
     }
-    if (cmd == "cpos")
+    if (cmd == "setv")
     {
-      auto const r = fcppt::container::tree::child_position(a, b);
-      tree const &ca = a;
-      tree const &cb = b;
-      auto const rc = fcppt::container::tree::child_position(ca, cb);
-      if (r.has_value() != rc.has_value())
-        return "CONST-DIFFERS";
-      return "q a=" + sa + " b=" + sb + " cpos=" +
-             (r.has_value() ? std::to_string(std::distance(a.begin(), r.get_unsafe())) : std::string{"none"});
+      // the argument is a reference to a value inside the forest (possibly the receiver's own)
+      a.value(b.value());
+      return done(head);
     }
+    if (cmd == "pushbv" || cmd == "pushfv")
+    {
+      if (big)
+        return "skip:big";
+      tree const &cb = b;
+      if (cmd == "pushbv")
+        a.push_back(cb.value());
+      else
+        a.push_front(cb.value());
+      return done(head);
+    }
+    if (cmd == "cpos")
+      return "q a=" + sa + " b=" + sb + " cpos=" + cpos_str(a, b);
     if (cmd == "eq")
     {
       tree const &ca = a;
@@ -542,6 +854,18 @@ std::string handle_impl(std::vector<std::string> const &t)
     else
       a.insert(it_at(a, i), int{v});
     return done("ok a=" + sa + " i=" + std::to_string(i));
+  }
+  if (cmd == "insv")
+  {
+    path pb;
+    if (!sel(y, pb))
+      return "bad-op";
+    if (big)
+      return "skip:big";
+    std::size_t const i = static_cast<std::size_t>(std::stoull(x) % (len + 1));
+    tree const &cb = *node_at(pb);
+    a.insert(it_at(a, i), cb.value());
+    return done("ok a=" + sa + " i=" + std::to_string(i) + " b=" + path_str(pb));
   }
   if (cmd == "inst")
   {
